@@ -744,6 +744,11 @@ pub fn gen_conforming(cfg: &GenCfg, rng: &mut Rng) -> Stream {
             1 => u32::MAX - rng.below(n_hbf as u64 * 2 + 1) as u32,
             _ => rng.next_u32(),
         };
+        // (a link number shared with an earlier link: where the two are stored one after the other the orbit rule
+        // spans the switch - the first heartbeat frame here must not repeat the last orbit there)
+        while links.iter().any(|l: &LinkStream| l.link_id == link_id && l.packets.last().map_or(false, |p| p.rdh.orbit == orbit)) {
+            orbit = orbit.wrapping_add(7);
+        }
         for h in 0..n_hbf {
             lg.gen_hbf(h, orbit);
             orbit = match style {
